@@ -16,11 +16,11 @@ fn space_for(tier: Tier) -> (Space, usize) {
     let mut s = Space::new();
     match tier {
         Tier::Quick => {
-            s.ast("K", 4, 64).ast("U", 3, 64);
+            s.ast("K", 5, 64).ast("U", 3, 64);
             (s, 3)
         }
         Tier::Thorough => {
-            s.ast("K", 5, 64).ast("U", 4, 64).ast("CL", 4, 64);
+            s.ast("K", 5, 64).ast("U", 5, 64).ast("CL", 4, 64).ast("GC", 5, 64);
             (s, 4)
         }
     }
